@@ -156,6 +156,10 @@ impl Check for C09 {
                     v.push(Ev::DelayResp { j, t4: Ts::from_ns(t3 / NS + 555), c: 0, from_parent: false, for_us: true });
                 }
             }
+            // arrival order of the timestamp and the responses (genuine, duplicates, decoys) is free;
+            // only the timer that emits the request comes first
+            let start = if j > 0 { 1 } else { 0 };
+            ch.shuffle(S_WORK, &mut v[start..]);
             delay_events.push(v);
         }
         // interleave: random merge keeping the order inside each delay exchange's list
